@@ -60,7 +60,7 @@ func init() {
 		Rule:        "non-trivial iff the schema has >= 6 user combinators and built, or a semantic edit was applied; distinct by (schema, edit, options)",
 		Assumptions: []string{"TL2-native input files are exercised by the hand-written TL2 schema sets of the codegen checks, not generated here"},
 		Floors:      []floor{{"built", 0.25, ""}},
-		Prepare:     hTest("props/cli", "^TestC14", hOpts{QShards: 8, TShards: 8, QTimeout: 15 * time.Minute, TTimeout: 120 * time.Minute, Tools: []string{"tl2gen"}}),
+		Prepare:     hTest("props/cli", "^TestC14", hOpts{QShards: 8, TShards: 16, QTimeout: 15 * time.Minute, TTimeout: 120 * time.Minute, Tools: []string{"tl2gen"}}),
 	}
 }
 
